@@ -67,7 +67,7 @@ fn hash_upd(key: &str, fields: &[(&str, &[u8], u64, u64)], t: u64, r: u64) -> Up
 /// * no tombstone was dropped and the value / fields differ        → keep-latest:* (fixed defect:
 ///   listed under `fixed`, so firing is a VIOLATION)
 /// * anything else                                                 → compaction:state-differs / key-lost
-fn classify(before: &Fold, after: &Fold, tombs_removed: u64, all: &[Upd], cutoff: u64) -> String {
+fn classify(before: &Fold, after: &Fold, tombs_removed: u64, all: &[Upd], cutoff: u64) -> (String, Option<String>) {
     let b: HashMap<&String, &MRv> = before.iter().map(|(k, v)| (k, v)).collect();
     let a: HashMap<&String, &MRv> = after.iter().map(|(k, v)| (k, v)).collect();
     let is_tomb = |v: &MRv| matches!(&v.crdt, MCrdt::Lww(l) if l.tomb);
@@ -77,43 +77,44 @@ fn classify(before: &Fold, after: &Fold, tombs_removed: u64, all: &[Upd], cutoff
     if tombs_removed > 0 {
         for (k, v) in &b {
             match a.get(k) {
-                Some(x) if is_tomb(v) && !is_tomb(x) => return "C13:tombstone-gc:older-value-resurfaces".into(),
+                Some(x) if is_tomb(v) && !is_tomb(x) => return ("C13:tombstone-gc:older-value-resurfaces".into(), Some((*k).clone())),
                 Some(x) if !is_tomb(v) && *x != *v => {
                     // the dropped survivor is the merge of the compacted deltas of the key: with
                     // it goes everything they contributed to the merged value of a NEWER write
                     // held outside the compaction — expiry, vector clock, rf, outer stamp
                     if x.crdt == v.crdt && !expired_tombs(k).is_empty() {
                         if x.vc == v.vc && x.rf == v.rf && (x.t, x.r) == (v.t, v.r) && x.exp != v.exp {
-                            return "C13:tombstone-gc:expiry-of-dropped-tombstone".into();
+                            return ("C13:tombstone-gc:expiry-of-dropped-tombstone".into(), Some((*k).clone()));
                         }
-                        return "C13:tombstone-gc:metadata-of-dropped-tombstone".into();
+                        return ("C13:tombstone-gc:metadata-of-dropped-tombstone".into(), Some((*k).clone()));
                     }
-                    return "C13:compaction:state-differs".into();
+                    return ("C13:compaction:state-differs".into(), None);
                 }
-                None if !is_tomb(v) => return "C13:compaction:key-lost".into(),
+                None if !is_tomb(v) => return ("C13:compaction:key-lost".into(), Some((*k).clone())),
                 _ => {}
             }
         }
-        return "C13:compaction:state-differs".into();
+        return ("C13:compaction:state-differs".into(), None);
     }
     for (k, v) in &b {
         match a.get(k) {
-            None => return "C13:compaction:key-lost".into(),
+            None => return ("C13:compaction:key-lost".into(), Some((*k).clone())),
             Some(x) if *x != *v => {
                 if x.crdt != v.crdt || (x.t, x.r) != (v.t, v.r) {
-                    return match (&v.crdt, &x.crdt) {
+                    let sig: String = match (&v.crdt, &x.crdt) {
                         (MCrdt::H(_), _) | (_, MCrdt::H(_)) => "C13:keep-latest:hash".into(),
                         (MCrdt::Lww(_), MCrdt::Lww(_)) => "C13:keep-latest:lww".into(),
                         _ => "C13:keep-latest:counter-or-set".into(),
                     };
+                    return (sig, Some((*k).clone()));
                 }
                 // value and stamp equal, merged metadata (expiry / vector clock / rf) differs
-                return "C13:keep-latest:metadata".into();
+                return ("C13:keep-latest:metadata".into(), Some((*k).clone()));
             }
             _ => {}
         }
     }
-    "C13:compaction:state-differs".into()
+    ("C13:compaction:state-differs".into(), None)
 }
 
 /// flush the layout (one segment per group), compact, compare recovery before / after
@@ -143,6 +144,24 @@ async fn layout_case(out: &mut Out, groups: &[Vec<Upd>], c: &CCfg, big: &[bool],
     if tombs > 0 {
         out.count("compaction:tombstones-dropped");
     }
+    // direct oracle on the selection rule (independent of tombstones): the segments a pass removes
+    // are the oldest-first prefix (by id) of the candidates (size < target), of length
+    // min(#candidates, max_segments_per_compaction)
+    let mut cand: Vec<(u64, u64)> = p.segs.iter().filter(|(_, sz, _)| *sz < c.target).map(|(id, sz, _)| (*id, *sz)).collect();
+    cand.sort();
+    let uneven = cand.iter().map(|x| x.1).max().unwrap_or(0) > cand.iter().map(|x| x.1).min().unwrap_or(0) + 40;
+    out.count(if cand.len() as u64 > c.maxper { if uneven { "selection:candidates>maxper:uneven-sizes" } else { "selection:candidates>maxper:even-sizes" } } else { "selection:candidates<=maxper" });
+    let expected: Vec<u64> = cand.iter().take(c.maxper as usize).map(|x| x.0).collect();
+    let mut removed: Vec<u64> = match &r {
+        Ok(cr) => cr.segments_removed.iter().map(|s| s.id).collect(),
+        Err(_) => Vec::new(),
+    };
+    removed.sort();
+    if r.is_ok() && removed != expected {
+        out.violation("C13:selection:not-oldest-first",
+            "the segments removed by the compaction pass are not the oldest-first prefix (by id) of the candidate segments (size < target), of length min(#candidates, max_segments_per_compaction)",
+            json!({"workload": p.text, "segments(id,size)": p.segs.iter().map(|(i, z, _)| (*i, *z)).collect::<Vec<_>>(), "target": c.target, "max_per_compaction": c.maxper, "candidates": cand, "expected_removed": expected, "removed": removed}));
+    }
     let (fb, fa) = (fold_of(&before), fold_of(&after));
     let nontrivial = outcome == "compacted" && groups.len() >= 2;
     out.case(&p.text, nontrivial);
@@ -156,9 +175,31 @@ async fn layout_case(out: &mut Out, groups: &[Vec<Upd>], c: &CCfg, big: &[bool],
             }
             let differs = if tombs == 0 { a != b } else { visible(a) != visible(b) };
             if differs {
-                let sig = classify(b, a, tombs, &all, c.cutoff);
+                let (mut sig, key) = classify(b, a, tombs, &all, c.cutoff);
+                // cause of the uncompacted value: where does the key live outside the pass?
+                let mut outside: Vec<serde_json::Value> = Vec::new();
+                if let Some(k) = &key {
+                    let newest_removed = removed.iter().max().cloned().unwrap_or(0);
+                    let mut skipped_older_candidate = false;
+                    for (id, sz, ups) in &p.segs {
+                        if removed.contains(id) || !ups.iter().any(|(k2, _)| k2 == k) {
+                            continue;
+                        }
+                        let candidate = *sz < c.target;
+                        let why = if !candidate { "not a candidate (size >= target)" } else if *id > newest_removed { "candidate newer than every removed segment (cut off by max_segments_per_compaction)" } else { "CANDIDATE OLDER THAN A REMOVED SEGMENT (skipped by the selection)" };
+                        if candidate && *id < newest_removed {
+                            skipped_older_candidate = true;
+                        }
+                        outside.push(json!({"segment": id, "size": sz, "why_outside": why}));
+                    }
+                    if skipped_older_candidate {
+                        if let Some(sym) = sig.strip_prefix("C13:tombstone-gc:") {
+                            sig = format!("C13:selection:not-oldest-first:{}", sym);
+                        }
+                    }
+                }
                 out.violation(&sig, "the state recovered after the compaction differs from the state recovered before it",
-                    replay(json!({"before": show_upds(b), "after": show_upds(a), "tombstones_removed": tombs})));
+                    replay(json!({"before": show_upds(b), "after": show_upds(a), "tombstones_removed": tombs, "key": key.as_ref().map(|k| hex(k.as_bytes())), "removed_segments": removed, "key_outside_the_pass": outside})));
             } else if expect_known {
                 out.count("corpus:witness-of-fixed-defect-passes");
             }
@@ -417,7 +458,7 @@ async fn interleave_case(out: &mut Out) {
 // ---------------------------------------------------------------------------------------------
 
 fn split_groups(rng: &mut Rng, ups: &[Upd]) -> Vec<Vec<Upd>> {
-    let ng = rng.range(2, 5) as usize;
+    let ng = rng.range(2, 6) as usize;
     let mut g: Vec<Vec<Upd>> = vec![Vec::new(); ng];
     for u in ups {
         let copies = if rng.chance(1, 8) { 2 } else { 1 };
@@ -467,7 +508,7 @@ async fn random_case(out: &mut Out, rng: &mut Rng) {
         1 => max_t + 1,
         _ => 0,
     };
-    let c = CCfg { target, min: rng.range(1, 3), maxper: rng.range(2, 5), cutoff };
+    let c = CCfg { target, min: rng.range(1, 3), maxper: if rng.chance(1, 2) { 2 } else { rng.range(2, 5) }, cutoff };
     layout_case(out, &groups, &c, &[], if mode == 0 { "single-replica-monotone" } else { "multi-replica" }, false).await;
 }
 
@@ -513,6 +554,13 @@ pub fn run(a: &Args) {
             .collect();
         layout_case(&mut out, &[vec![with_vc(lww_upd("k", b"a", 5, 1, false), &[(1, 1)])], vec![with_vc(tomb_upd("k", 6, 1), &[(1, 2)])], bigv],
             &CCfg { target: 1000, min: 2, maxper: 5, cutoff: 100 }, &[], "corpus:vclock-of-dropped-tombstone", true).await;
+        // three candidates of uneven sizes, max_segments_per_compaction = 2: oldest-first takes the
+        // large old segment (k = v1) together with k's expired tombstone — must pass
+        let seg0: Vec<Upd> = std::iter::once(lww_upd("k", b"v1", 10, 1, false))
+            .chain((0..8).map(|i| lww_upd(&format!("pad{}", i), b"padding-value", 11 + i, 1, false)))
+            .collect();
+        layout_case(&mut out, &[seg0, vec![tomb_upd("k", 20, 1)], vec![lww_upd("x", b"1", 30, 1, false)]],
+            &CCfg { target: 1 << 20, min: 2, maxper: 2, cutoff: 100 }, &[], "corpus:uneven-candidates-maxper-2", true).await;
         production_clock_witness(&mut out).await;
         interleave_case(&mut out).await;
         enumerate_races(&mut out).await;
@@ -522,5 +570,5 @@ pub fn run(a: &Args) {
         }
     });
     let _ = (hex(b""), ReplicatedValue::new(ReplicaId::new(1)));
-    out.finish("case = one segment layout: an update set (single replica with monotone stamps, or 1..3 replicas × 1..16 shards with interleaved clocks, hashes, tombstones, expiries, 1/8 type changes) split into 2..5 segments (1/8 duplicated) by the real StreamingPersistence, compacted by the real Compactor under a generated configuration (size target below some segments 1/2, max-per-compaction 2..5, min 1..3, tombstone cutoff 0 / mid-range / above all stamps), recovered before and after; plus the exhaustive enumeration of all store-call interleavings of compact() and flush() on a 2-segment store; distinct by op text / schedule; non-trivial iff a compacted segment was written from ≥ 2 segments, or an interleaving leaf");
+    out.finish("case = one segment layout: an update set (single replica with monotone stamps, or 1..3 replicas × 1..16 shards with interleaved clocks, hashes, tombstones, expiries, 1/8 type changes) split into 2..6 segments (1/8 duplicated) by the real StreamingPersistence, compacted by the real Compactor under a generated configuration (size target below some segments 1/2, max-per-compaction 2 (1/2) or 2..5, min 1..3, tombstone cutoff 0 / mid-range / above all stamps), recovered before and after; plus the exhaustive enumeration of all store-call interleavings of compact() and flush() on a 2-segment store; distinct by op text / schedule; non-trivial iff a compacted segment was written from ≥ 2 segments, or an interleaving leaf");
 }
